@@ -1596,7 +1596,9 @@ def fragmentGuards (u : TUnit) : List (String × Bool) :=
     -- every declared name once (`_check_for_duplicate_defs`, and last-one-wins otherwise)
     ("f-names-once", decide (unitNames u).Nodup),
     -- `NoneType` is neither a type parameter nor an alias
-    ("f-nonetype", !g.tps.contains "NoneType" && !g.aliasNames.contains "NoneType") ]
+    ("f-nonetype", !g.tps.contains "NoneType" && !g.aliasNames.contains "NoneType"),
+    -- nothing is called `typing` (`_maybe_resolve_alias` looks up the first component of an alias target)
+    ("f-no-typing-name", !(unitNames u).contains "typing") ]
 
 /-- the emitted-dialect fragment the theorems of Props/C05.lean are about -/
 def inFragment (u : TUnit) : Bool := (fragmentGuards u).all (·.2)
